@@ -7,9 +7,9 @@ from ..facts import Callee
 PROP = "C19"
 EXPLANATION = (
     "Determinism is decided as the absence of nondeterminism sources in the placement cone (the call cone of DispatcherBuilder::add, "
-    "add_batch and StagesBuilder::insert inside the crate): (NOHASHITER) no iteration over a hash map or set - names are used only "
+    "add_batch and StagesBuilder::insert inside the crate, and of every function of the crate that leads to them): (NOHASHITER) no iteration over a hash map or set - names are used only "
     "through get/entry/contains_key; (EQONLY) ResourceId and SystemId are consulted only by order-insensitive consumers: equality, "
-    "sort followed by dedup, extend, clone; no comparison, max/min, binary search or hashing of ids; (NOENV) no clock, thread id, "
+    "sort followed by dedup, extend, clone; no comparison, max/min, binary search or hashing of ids; names are looked up and compared as wholes, never taken apart (only is_empty, which means unnamed); (NOENV) no clock, thread id, "
     "random state, environment, type name or pointer-to-integer source; (CFG, thorough) the placement bodies have identical call "
     "skeletons in all four feature configurations. A future membership-only use of Ord would need an allow-list line.")
 ASSUMPTIONS = ["slice::sort and Vec::dedup are deterministic; TypeId ordering is fixed within one build"]
@@ -26,6 +26,19 @@ def cone(ctx, facts):
     roots = [facts.one(A.DB + "::add"), facts.one(A.DB + "::add_batch"), facts.one(A.SB + "::insert")]
     # add_batch builds the inner dispatcher: building (pool creation, wiring) places nothing
     build = facts.one(A.DB + "::build")
+    # whatever in the crate leads to a placement (a wrapper around add, another registration entry) decides what is placed
+    # and with which dependencies: it belongs to the function from registrations to plans as well
+    callers = facts.callers()
+    seen = set(r.key for r in roots)
+    todo = list(roots)
+    while todo:
+        x = todo.pop()
+        for cb, bb in callers.get(x.key, []):
+            r = facts.bodies.get(cb.root_key, cb) if cb.is_closure and cb.root_key else cb
+            if r.key not in seen and r.key != build.key:
+                seen.add(r.key)
+                roots.append(r)
+                todo.append(r)
     # calls through std traits (IntoIterator, Clone, Debug, ..) are followed where they resolve; an unresolved one in generic
     # code is not taken to reach every in-crate impl of that trait (an `IntoIterator for &World` somewhere is not placement code)
     return facts.cone(roots, stop=lambda b: b.key == build.key, foreign_traits=False)
@@ -100,6 +113,20 @@ def scan(ctx, report, facts, config, pfx="C19"):
             # the builder's name map: names to system ids (another String-keyed map somewhere in the crate is not it)
             if ("SystemId" in ty or "SystemId" in c.inst_path) and ("AHashMap<std::string::String" in ty or "HashMap<std::string::String" in ty or "HashMap::<std::string::String" in c.inst_path):
                 names_used.add(c.name)
+    # names are opaque labels: looked up and compared as wholes, never taken apart (a plan that depends on how a name is spelt
+    # is not a function of the registration sequence up to renaming); "" alone is special: it means unnamed
+    STR_IMPLS = ("core::str::<impl str>::", "alloc::str::<impl str>::", "std::string::String::", "alloc::string::String::")
+    STR_OK = set(["is_empty", "as_str", "to_owned", "to_string", "new", "from", "into_string", "into_boxed_str", "as_ref", "borrow", "clone"])
+    n_str = 0
+    for b in sorted(cn.values(), key=lambda b: b.key):
+        for bb, t in b.normal_calls():
+            c = Callee(t["func"])
+            if not c.local and (c.path.startswith(STR_IMPLS) or "::str::<impl str>::" in c.path or "::string::String::" in c.path):
+                n_str += 1
+                if c.name not in STR_OK:
+                    report.ob(pfx + ".EQONLY", "name-inspected/%s" % b.qname, False, "a name is taken apart through %s: the plan would depend on how systems are spelt, not only on which names are equal" % c.short(), site=b.loc(bb), config=config)
+    report.ob(pfx + ".EQONLY", "names-opaque", True, "%d string operation(s) in the placement cone looked at" % n_str, config=config)
+    report.floor(pfx + ".EQONLY", "string operations in the placement cone", n_str, 1, config=config)
     allowed = set(["get", "entry", "contains_key", "deref", "deref_mut", "len", "is_empty", "insert"])
     report.ob(pfx + ".NOHASHITER", "name-map-api", names_used <= allowed, "name map used through %s" % sorted(names_used), site=add.loc(), config=config)
 
